@@ -4,6 +4,7 @@ package main
 
 import (
 	"fmt"
+	"sort"
 	"go/token"
 	"go/types"
 	"strings"
@@ -36,7 +37,7 @@ func (fr *Frame) callInvoke(x ssa.CallInstruction, com *ssa.CallCommon, st *Stat
 		return TV(App(SString, "error.text", recv)), st
 	}
 	if ct := vc.L.CF.Contracts[key]; ct != nil {
-		return fr.callIfaceContract(x, key, ct, com.Method.Type().(*types.Signature), recv, args, st)
+		return fr.callIfaceContract(x, key, 6, ct, com.Method.Type().(*types.Signature), recv, args, st)
 	}
 	fail("%s: interface method call %s has no interface contract", vc.posOf(x.Pos()), key[6:])
 	return Val{}, nil
@@ -44,9 +45,10 @@ func (fr *Frame) callInvoke(x ssa.CallInstruction, com *ssa.CallCommon, st *Stat
 
 // callIfaceContract: assumed/proved contract of an interface method; clause
 // parameters are bound by name (`self` is the receiver).
-func (fr *Frame) callIfaceContract(x ssa.CallInstruction, key string, ct *Contract, sig *types.Signature, recv Term, args []Val, st *State) (Val, *State) {
+func (fr *Frame) callIfaceContract(x ssa.CallInstruction, fullKey string, plen int, ct *Contract, sig *types.Signature, recv Term, args []Val, st *State) (Val, *State) {
 	vc := fr.vc
 	pos := x.Pos()
+	key := "iface:" + fullKey[plen:]
 	vc.callees[key] = true
 	if ct.Trusted != "" {
 		vc.assumptions["contract:"+key[6:]+" ("+ct.Trusted+")"] = true
@@ -67,7 +69,7 @@ func (fr *Frame) callIfaceContract(x ssa.CallInstruction, key string, ct *Contra
 			}
 			ps := sig.Params()
 			for i := 0; i < ps.Len(); i++ {
-				if ps.At(i).Name() == cp.Name {
+				if ps.At(i).Name() == cp.Name || cp.Name == fmt.Sprintf("arg%d", i) {
 					return args[i]
 				}
 			}
@@ -164,10 +166,10 @@ func (vc *VC) traceAppend(st *State, f Term, args []Val) {
 func (fr *Frame) callDynamic(x ssa.CallInstruction, f Term, args []Val, st *State) (Val, *State) {
 	vc := fr.vc
 	pos := x.Pos()
-	if fr.pure {
+	sig := x.Common().Value.Type().Underlying().(*types.Signature)
+	if fr.pure && !pureCallbackTypes[shortTypeName(x.Common().Value.Type())] {
 		fail("%s: dynamic call in a pure context", vc.posOf(pos))
 	}
-	sig := x.Common().Value.Type().Underlying().(*types.Signature)
 	vc.Safe("nil-func", pos, st, Not(Eq(App(SInt, "fcode", f), IntLit(0))), "call of nil function value")
 	st.Assume(Not(Eq(App(SInt, "fcode", f), IntLit(0))))
 	tname := shortTypeName(x.Common().Value.Type())
@@ -246,46 +248,67 @@ func (fr *Frame) havocCallbackFrame(x ssa.CallInstruction, args []Val, st *State
 		if !av.IsT || av.T.Sort != SPtr {
 			continue
 		}
-		at := x.Common().Args[i].Type()
-		pt, ok := at.Underlying().(*types.Pointer)
-		if !ok {
-			continue
-		}
-		named, ok := pt.Elem().(*types.Named)
-		if !ok {
-			continue
-		}
-		stt, ok := named.Underlying().(*types.Struct)
-		if !ok {
-			continue
-		}
-		keep := callbackKeeps[named.Obj().Name()]
-		if named.Obj().Pkg() == nil || named.Obj().Pkg().Path() != pkgPath {
-			continue
-		}
-		old := vc.heapLoad(st, named, av.T)
-		nv := old
-		for f := 0; f < stt.NumFields(); f++ {
-			if keep[stt.Field(f).Name()] {
-				continue
-			}
-			ft := stt.Field(f).Type()
-			fv := vc.Fresh("cb."+stt.Field(f).Name(), vc.specialSort(ft))
-			if wf := vc.wfValue(fv, ft, st); wf.S != "true" {
-				st.Assume(wf)
-			}
-			nv = vc.ss.FieldSet(nv, f, fv)
-		}
-		st.Assume(Not(Eq(PArr(av.T), IntLit(0))))
-		vc.heapStoreRaw(st, named, av.T, nv)
+		fr.havocCallbackObject(x.Common().Args[i].Type(), av.T, st)
 	}
-	// ghost state a callback may change: headers and writer state
-	for _, g := range []string{"$hdr", "$wstate"} {
-		if srt, ok := vc.heapSorts[g]; ok {
-			if _, touched := st.heaps[g]; touched || vc.entryHeaps[g].S != "" {
-				st.heaps[g] = vc.Fresh("cb"+g, srt)
-			}
+	fr.havocCallbackGhost(st)
+}
+
+// havocCallbackObject: a framework object handed to a callback may change in
+// every field except the ones listed in callbackKeeps.
+func (fr *Frame) havocCallbackObject(at types.Type, p Term, st *State) {
+	vc := fr.vc
+	pt, ok := at.Underlying().(*types.Pointer)
+	if !ok {
+		return
+	}
+	named, ok := pt.Elem().(*types.Named)
+	if !ok {
+		return
+	}
+	stt, ok := named.Underlying().(*types.Struct)
+	if !ok {
+		return
+	}
+	if named.Obj().Pkg() == nil || named.Obj().Pkg().Path() != pkgPath {
+		return
+	}
+	keep := callbackKeeps[named.Obj().Name()]
+	old := vc.heapLoad(st, named, p)
+	nv := old
+	for f := 0; f < stt.NumFields(); f++ {
+		if keep[stt.Field(f).Name()] {
+			continue
 		}
+		ft := stt.Field(f).Type()
+		fv := vc.Fresh("cb."+stt.Field(f).Name(), vc.specialSort(ft))
+		if wf := vc.wfValue(fv, ft, st); wf.S != "true" {
+			st.Assume(wf)
+		}
+		nv = vc.ss.FieldSet(nv, f, fv)
+	}
+	vc.heapStoreRaw(st, named, p, nv)
+}
+
+// havocCallbackGhost: header maps and the ghost view of writers may change.
+func (fr *Frame) havocCallbackGhost(st *State) {
+	vc := fr.vc
+	name, hs := vc.mapHeap(vc.headerMapType())
+	vc.heapFor(st, name, hs)
+	st.heaps[name] = vc.Fresh("cb.hdr", hs)
+	for g, srt := range vc.heapSorts {
+		if strings.HasPrefix(g, "$g.") {
+			vc.heapFor(st, g, srt)
+		}
+	}
+	var gs []string
+	for g := range st.heaps {
+		if strings.HasPrefix(g, "$g.") {
+			gs = append(gs, g)
+		}
+	}
+	sort.Strings(gs)
+	for _, g := range gs {
+		st.heaps[g] = vc.Fresh("cb"+g, vc.heapSorts[g])
 	}
 }
 
